@@ -105,7 +105,7 @@ def scen(w, D=2, scripts=1, full_modes=0):
     enter_lines = ENTER_LINES if scripts else []
     exit_lines = EXIT_LINES if scripts else []
     Events = pu.events(w)
-    plugin.on_event(Events.PRINT_STARTED, None)
+    pu.fire(plugin, "PRINT_STARTED")
     pipe = pl.Pipe(w, plugin=plugin, track_p=False)
     pipe.add_region(pl.fresh_region(w, "rect", "r0"))
     pipe.prologue()
@@ -151,6 +151,10 @@ def scen(w, D=2, scripts=1, full_modes=0):
         w.check(rec.emitted == [], "configured-code-withheld-during-episode",
                 "%r (mode %s) -> %r" % (text, modes[code], rec.result))
         seen.append((code, text, [(l, v) for l, v in vals]))
+    if w.flag("foreign-script-hook-mid-episode"):
+        r0 = plugin.handleScriptHook(comm, "gcode", ["afterPrintPaused", "beforePrintResumed"][w.choose(2, "which-hook")])
+        w.check(r0 is None and plugin.state.excluding is True, "foreign-script-hook-contributes-nothing", "%r" % (r0,))
+        w.cover("foreign-hook")
     exp = expected_flush(w, modes, seen)
     ending = ENDINGS[w.choose(len(ENDINGS), "ending")]
     w.cover("ending-" + ending)
@@ -167,7 +171,7 @@ def scen(w, D=2, scripts=1, full_modes=0):
                 "script-hook-returns-prefix", "%r" % (res,))
         out = list(res[0]) if isinstance(res, tuple) and isinstance(res[0], list) else []
     else:
-        plugin.on_event(Events.PRINT_STARTED, None)
+        pu.fire(plugin, "PRINT_STARTED")
         pipe.ep = False
         pipe.V.__init__(w, pipe.V.g90e, "V")
         pipe.prologue()
@@ -214,7 +218,7 @@ def plan(tier):
     D = 2 if tier == "quick" else 3
     out = [Scenario("episodes", scen, params={"D": D, "scripts": 1, "full_modes": 0 if tier == "quick" else 1},
                     cover=["ending-" + e for e in ENDINGS] + ["occ-M204-merge", "occ-M73-first", "occ-M117-last",
-                                                            "occ-M204-exclude", "occ-M204-first", "occ-M204-last"],
+                                                            "occ-M204-exclude", "occ-M204-first", "occ-M204-last", "foreign-hook"],
                     bounds={"D": D, "codes": ["M204", "M73", "M117"], "modes": MODES, "endings": ENDINGS})]
     if tier == "thorough":
         out.append(Scenario("episodes-noscripts", scen, params={"D": 2, "scripts": 0},
